@@ -328,6 +328,29 @@ def w_corners(arg):
     return acc.res()
 
 
+def w_periodic(part):
+    """frames made of one octet repeated, or two octets repeated (every first octet, i.e. every DF / CA): totality and
+    guards on the most regular bit patterns there are."""
+    acc = Acc()
+    tab = table()
+    k = 0
+    for b0 in range(part, 256, 4):
+        for b1 in (b0, 0x00, 0xFF, 0x1A, 0x55):
+            for n in (56, 112):
+                k += 1
+                msg = (("%02X%02X" % (b0, b1)) * 7)[:n // 4]
+                if k % 3 == 1:
+                    msg = msg.lower()
+                for name, f, extras, kind, guard in tab:
+                    for extra in extras[:1]:
+                        acc.n += 1
+                        s = judge(name, extra, msg)
+                        if s:
+                            acc.bad(s + ":periodic_frame", {"kind": "call", "name": name, "extra": list(extra), "msg": msg})
+        acc.out.add(("periodic", b0))
+    return acc.res()
+
+
 def w_forms(part):
     """argument forms: every callable must answer a frame the same way when the arguments are passed by the names its
     own signature advertises, and when the frame is a numpy.str_ (what iterating a numpy array of hex strings yields)
@@ -582,6 +605,8 @@ def w_any(t):
         return w_forms(t[1])
     if t[0] == "k":
         return w_corners(t[1])
+    if t[0] == "o":
+        return w_periodic(t[1])
     return w_dispatch(None) if t[0] == "d" else w_frames(t[1])
 
 
@@ -596,6 +621,7 @@ def run(ctx):
     tasks += [("l", (df, tc)) for df in ((17, 18) if ctx.thorough else (17,)) for tc in range(32)]
     tasks += [("s", part) for part in range(8)]
     tasks += [("a", part) for part in range(4)]
+    tasks += [("o", part) for part in range(4)]
     tasks += [("k", (tc, part)) for tc in (19, 29, 31, 28, 5, 11, 4) for part in range(4)]
     tasks += [("c", df) for df in ((0, 4, 5, 11, 16, 17, 18, 20, 21, 24) if not ctx.thorough else range(32))]
     ctx.pmap(w_any, tasks)
@@ -629,7 +655,7 @@ def replay(case):
     if case["kind"] == "call":
         s = judge(case["name"], tuple(case["extra"]), case["msg"])
         if s:
-            return [(s, case), (s + ":register_payload", case), (s + ":parity_sweep", case), (s + ":joint_corner_values", case)]
+            return [(s, case), (s + ":register_payload", case), (s + ":parity_sweep", case), (s + ":joint_corner_values", case), (s + ":periodic_frame", case)]
     else:
         s = judge_dispatch(case["sub"], tuple(case["p"]))
     return [(s, case)] if s else []
